@@ -24,6 +24,15 @@ type File struct {
 	Trace     []string                   `json:"trace,omitempty"`
 	RaceLog   string                     `json:"race_report,omitempty"`
 	Note      string                     `json:"note,omitempty"`
+	// Prefix > 0: the violation depends on state the process accumulated in
+	// earlier runs (a warm cache, a pool, a lazily built table): before the
+	// recorded tape is replayed, the Prefix runs that preceded it in its job
+	// (run indices Idx-Prefix .. Idx-1, regenerated from VerifSeed) are
+	// executed in the same process.
+	Prefix int `json:"prefix_runs,omitempty"`
+	// Reproduced is false when the violation was observed during the batch
+	// but could not be reproduced from this file in fresh processes.
+	Reproduced *bool `json:"reproduced,omitempty"`
 }
 
 // Load reads a replay file.
